@@ -36,23 +36,37 @@ Proof.
 Qed.
 
 (* ------------------------------------------------------------------ default rule *)
+Lemma private_by_default_bool : forall n,
+  starts_with us1 n && negb (starts_with us2 n && ends_with us2 n) = true <-> private_by_default n.
+Proof.
+  intros n. unfold private_by_default, leading_underscore, dunder.
+  assert (H1 : starts_with us1 n = true <-> exists m, n = underscore :: m) by exact (starts_with_spec us1 n).
+  assert (H2 : starts_with us2 n = true <-> exists m, n = underscore :: underscore :: m) by exact (starts_with_spec us2 n).
+  assert (H3 : ends_with us2 n = true <-> exists m, n = m ++ [underscore; underscore]) by exact (ends_with_spec us2 n).
+  rewrite <- H1, <- H2, <- H3.
+  destruct (starts_with us1 n), (starts_with us2 n), (ends_with us2 n); cbn; split; intros H;
+    try discriminate; try reflexivity.
+  - destruct H as [_ H]. exfalso. apply H. split; reflexivity.
+  - split; [reflexivity|]. intros [_ A]. discriminate.
+  - split; [reflexivity|]. intros [A _]. discriminate.
+  - split; [reflexivity|]. intros [A _]. discriminate.
+  - destruct H as [H _]. discriminate.
+  - destruct H as [H _]. discriminate.
+  - destruct H as [H _]. discriminate.
+  - destruct H as [H _]. discriminate.
+Qed.
+
 Theorem default_privacy_spec : forall n,
   (default_privacy n = PRIVATE <-> private_by_default n) /\ (default_privacy n = PUBLIC <-> ~ private_by_default n).
 Proof.
-  intros n. unfold default_privacy, private_by_default, leading_underscore, dunder.
-  pose proof (starts_with_spec us1 n) as H1. pose proof (starts_with_spec us2 n) as H2.
-  pose proof (ends_with_spec us2 n) as H3.
-  change (us1 ++ ?m) with (underscore :: m) in H1.
-  assert (H2' : starts_with us2 n = true <-> exists m, n = underscore :: underscore :: m) by exact H2.
-  assert (H3' : ends_with us2 n = true <-> exists m, n = m ++ [underscore; underscore]) by exact H3.
-  clear H2 H3.
-  destruct (starts_with us1 n) eqn:E1; destruct (starts_with us2 n) eqn:E2; destruct (ends_with us2 n) eqn:E3; cbn;
-    (split; split; intros H; try discriminate; try reflexivity; try tauto).
-  all: try (exfalso; apply H; split; [now apply H1|]; intros [A B]; 
-            first [apply H2' in A; discriminate | apply H3' in B; discriminate]).
-  all: try (destruct H as [_ H]; exfalso; apply H; split; [now apply H2'|now apply H3']).
-  all: try (destruct H as [H _]; apply H1 in H; discriminate).
-  all: try (split; [now apply H1|]; intros [A B]; first [apply H2' in A; discriminate | apply H3' in B; discriminate]).
+  intros n. pose proof (private_by_default_bool n) as H. unfold default_privacy.
+  destruct (starts_with us1 n && negb (starts_with us2 n && ends_with us2 n)).
+  - split; split; intros A; try discriminate; try reflexivity.
+    + now apply H.
+    + exfalso. apply A. now apply H.
+  - split; split; intros A; try discriminate; try reflexivity.
+    + apply H in A. discriminate.
+    + intros B. apply H in B. discriminate.
 Qed.
 
 Theorem default_rule : forall o c,
